@@ -22,7 +22,7 @@ theorem emitSig_some (f : Nat) (P : Prog) (s : LSt) (fl : Flavour) (i arg : Nat)
     (hx : aget s.sigs i = some g) (b : Bool) (hk : s.k2 = b) :
     Spec.emitSig (f+1) P s fl (some i) arg strat =
       if (b && !fl.isAcc && g.cells.isEmpty) = true then some (s, .ok, 0) else
-      match (if fl.isAcc = true then Spec.runStrat f P (proState s i g b) i (snapOf g b fl) arg strat
+      match (if fl.isAcc = true then Spec.runStrat f P (proState s i g b) i (snapOf g b fl) arg (strat.forFlavour fl)
              else Spec.turns f P (proState s i g b) i (snapOf g b fl) arg 0) with
       | none => none
       | some (s3, o, v) =>
@@ -39,9 +39,9 @@ theorem cEmit_some (f : Nat) (P : Prog) (s : LSt) (fl : Flavour) (i arg : Nat) (
     cEmit (f+1) P s fl (some i) arg strat =
       ((!fl.isAcc || g.active == 0) &&
       if (b && !fl.isAcc && g.cells.isEmpty) = true then true else
-      ((if fl.isAcc = true then cStrat f P (proState s i g b) i (snapOf g b fl) arg strat
+      ((if fl.isAcc = true then cStrat f P (proState s i g b) i (snapOf g b fl) arg (strat.forFlavour fl)
         else cTurns f P (proState s i g b) i (snapOf g b fl) arg 0) &&
-      match (if fl.isAcc = true then Spec.runStrat f P (proState s i g b) i (snapOf g b fl) arg strat
+      match (if fl.isAcc = true then Spec.runStrat f P (proState s i g b) i (snapOf g b fl) arg (strat.forFlavour fl)
              else Spec.turns f P (proState s i g b) i (snapOf g b fl) arg 0) with
       | none => true
       | some (s3, _, _) =>
@@ -223,7 +223,7 @@ theorem emit_succ (f : Nat) (ih : All f) : SEmit (f+1) := by
           have hst2 : Settled (proState t i g true) := by
             unfold proState
             simp only [if_true]
-            refine Settled.setSig (t := { t with next := t.next + 1 }) (hst.congr rfl rfl (fun _ => rfl) (fun _ => rfl))
+            refine Settled.setSig (t := { t with next := t.next + 1 }) (hst.congr rfl rfl rfl (fun _ => rfl) (fun _ => rfl))
               hx (fun o => ?_) (fun o => ?_)
             · simp only [any_append_single]
               simp [SlotB.holdsT]
@@ -245,15 +245,15 @@ theorem emit_succ (f : Nat) (ih : All f) : SEmit (f+1) := by
             · simp [List.filter_append]
             · rfl
           -- the turns
-          have inner : ∃ t3 o3 v3, (if fl.isAcc = true then Spec.runStrat f P (proState t i g true) i (snapOf g true fl) arg strat
+          have inner : ∃ t3 o3 v3, (if fl.isAcc = true then Spec.runStrat f P (proState t i g true) i (snapOf g true fl) arg (strat.forFlavour fl)
                 else Spec.turns f P (proState t i g true) i (snapOf g true fl) arg 0) = some (t3, o3, v3) := by
-            cases hin : (if fl.isAcc = true then Spec.runStrat f P (proState t i g true) i (snapOf g true fl) arg strat
+            cases hin : (if fl.isAcc = true then Spec.runStrat f P (proState t i g true) i (snapOf g true fl) arg (strat.forFlavour fl)
                 else Spec.turns f P (proState t i g true) i (snapOf g true fl) arg 0) with
             | none => rw [hin] at hr; simp at hr
             | some res => exact ⟨res.1, res.2.1, res.2.2, rfl⟩
           obtain ⟨t3, o3, v3, hin⟩ := inner
           rw [hin] at hr hc2
-          have sim3 : ∃ u3, (if fl.isAcc = true then Spec.runStrat (f+1) P (proState u i' g' false) i' (snapOf g' false fl) arg strat
+          have sim3 : ∃ u3, (if fl.isAcc = true then Spec.runStrat (f+1) P (proState u i' g' false) i' (snapOf g' false fl) arg (strat.forFlavour fl)
                 else Spec.turns (f+1) P (proState u i' g' false) i' (snapOf g' false fl) arg 0) = some (u3, o3, v3) ∧
               Good ρ (proState t i g true) (proState u i' g' false) t3 u3 ∧ Settled t3 := by
             cases hacc : fl.isAcc
@@ -262,7 +262,7 @@ theorem emit_succ (f : Nat) (ih : All f) : SEmit (f+1) := by
               exact ih.turns P ρ _ _ i i' _ _ arg 0 t3 o3 v3 hq2 hst2 hi hsn hc1 hin
             · rw [hacc] at hin hc1
               simp only [if_true] at hin hc1 ⊢
-              exact ih.strat P ρ _ _ i i' _ _ arg strat t3 o3 v3 hq2 hst2 hi hsn hc1 hin
+              exact ih.strat P ρ _ _ i i' _ _ arg (strat.forFlavour fl) t3 o3 v3 hq2 hst2 hi hsn hc1 hin
           obtain ⟨u3, e3, ⟨ρ3, hq3, hs3, hf3⟩, hst3⟩ := sim3
           rw [e3]
           simp only at hr hc2 ⊢
